@@ -34,7 +34,7 @@ def prepare(pid, progs):
     for cfg in ("nodefault", "alltargets"):
         try:
             fx = F.extract(E.REPO, cfg)
-            extra[cfg] = {k: C.Program(v, k) for k, v in fx.items()}
+            extra[cfg] = E.programs_from_facts(fx)       # same normal form as the default configuration
             info["configurations"][cfg] = {k: len(p.bodies) for k, p in extra[cfg].items()}
         except F.CheckerBroken as e:
             info["configurations"][cfg] = "extraction failed: %s" % str(e)[-300:]
